@@ -13,7 +13,7 @@ from collections import Counter
 from hypothesis import strategies as st
 
 from .. import gen
-from ..engine import describe_ops, exc_key, run_case
+from ..engine import describe_ops, exc_key, observed_phase, run_case
 from ..runner import V
 
 ID = 'C06'
@@ -248,7 +248,10 @@ def check(case, stats):
         cfg['autos'] &= ~(1 << 7)
         case = dict(case, config=cfg)
     obs = Obs(cfg)
-    res = run_case(case, observers=(obs,))
+    ph = observed_phase(cfg)
+    if ph is not None:
+        stats.count('class:observed_run')
+    res = run_case(case, observers=(obs,), observed=ph)
     stats.count('outcome:' + str(res.outcome))
     if res.outcome == 'discard':
         return []
